@@ -253,7 +253,11 @@ func runCheck(o *CheckOpts) int {
 	isKnown := func(name string) *KnownFinding {
 		for i := range known.Findings {
 			k := &known.Findings[i]
-			if k.Property == o.Prop && k.Obligation == name {
+			if k.Property != o.Prop {
+				continue
+			}
+			// a finding names an obligation, with or without the "@b<block>" suffix of a return site
+			if k.Obligation == name || (!strings.Contains(k.Obligation, "@") && strings.HasPrefix(name, k.Obligation+"@")) {
 				return k
 			}
 		}
